@@ -304,9 +304,12 @@ type ChunkReader struct {
 	Data  []byte
 	Sizes []int
 	End   error
-	i     int
-	Pos   int
-	Reads int
+	// DataErr makes the reader return the end error together with the last
+	// bytes (n > 0 && err != nil), as the io.Reader contract allows.
+	DataErr bool
+	i       int
+	Pos     int
+	Reads   int
 }
 
 func (c *ChunkReader) Read(p []byte) (int, error) {
@@ -333,6 +336,12 @@ func (c *ChunkReader) Read(p []byte) (int, error) {
 	}
 	copy(p, c.Data[c.Pos:c.Pos+k])
 	c.Pos += k
+	if c.DataErr && c.Pos >= len(c.Data) {
+		if c.End != nil {
+			return k, c.End
+		}
+		return k, io.EOF
+	}
 	return k, nil
 }
 
